@@ -85,9 +85,9 @@ func clientExpectation(rp rep) (expectErr bool, stage, why string) {
 func clientThreadRole(site string) string {
 	switch {
 	case strings.Contains(site, "onParserFinish"):
-		return "the client's bare per-packet goroutine of Manager.onParserFinish (no recover: process exit)"
+		return "the client's bare per-packet goroutine of Manager.onParserFinish"
 	case strings.HasPrefix(site, "client_socket.go:") || strings.Contains(site, "polling") || strings.Contains(site, "transport"):
-		return "the client's bare transport goroutine, which runs Parser.Add in Manager.onEIOPacket (no recover: process exit)"
+		return "the client's bare transport goroutine, which runs Parser.Add in Manager.onEIOPacket"
 	}
 	return "client-side thread " + site
 }
@@ -124,6 +124,7 @@ func clientScenario(rp rep, bound int) *vx.Scenario {
 		vsched.GoQuiet("driver", func() {
 			sock.Connect()
 			vsched.Await(func() bool { return connected && nreg == 1 })
+			vrig.Settle(time.Second) // see process.go: let the server finish setting the socket up
 			frames := make([][]byte, len(rp.Frames))
 			for i, f := range rp.Frames {
 				frames[i] = []byte(f.Data)
@@ -137,6 +138,7 @@ func clientScenario(rp rep, bound int) *vx.Scenario {
 			s2.OnConnect(func() { sv.Do(func() { connected2 = true }) })
 			s2.Connect()
 			vsched.Await(func() bool { return connected2 && nreg == 2 })
+			vrig.Settle(time.Second)
 			s2.Emit("echo", "y", func(r string) { sv.Do(func() { echo2 = r }) })
 		})
 		return func() vx.Result {
@@ -150,7 +152,7 @@ func clientScenario(rp rep, bound int) *vx.Scenario {
 				fn, via := sitesFromStackText(t.Stack)
 				pi := &panicInfo{Fn: fn, Via: via, What: normalisePanic(t.Panic)}
 				r.Violate("client: uncaught "+pi.key()+", on "+clientThreadRole(t.Site),
-					"[%s] frames %s sent by the server to a connected Go client: %v (thread %s)", rp.Name, showRep(rp), t.Panic, t.Site)
+					"[%s] frames %s sent by the server to a connected Go client: %v (thread %s); no recover between this goroutine and the runtime: the client process exits", rp.Name, showRep(rp), t.Panic, t.Site)
 			}
 			if !sent {
 				r.Violate("client: harness could not deliver the frames", "[%s] connected=%v server sockets=%d", rp.Name, connected, nreg)
